@@ -408,6 +408,102 @@ theorem specParent_insert_only_child (infos : List Info) (x : Info) (i : Nat) (l
           · exact hkl j (by omega) hjl hsp
           · omega
 
+/-- **a line placed directly behind a closed block `[i, e]` headed by a shallower configuration
+line `i`** (no line behind `e` has its parent inside the block) captures nothing -/
+theorem capturedBy_closed (infos : List Info) (x : Info) (i e j : Nat) (li : Info)
+    (hi : infos[i]? = some li) (hcfg : li.isCfg = true) (hlt : li.indent ≤ x.indent) (hie : i ≤ e)
+    (H3 : ∀ j, e < j → j < infos.length → ¬ (i ≤ specParent infos j ∧ specParent infos j ≤ e))
+    (hj : e < j) : capturedBy infos x (e + 1) j = false := by
+  cases hl : infos[j]? with
+  | none => unfold capturedBy; rw [hl]
+  | some l =>
+    cases hcap : capturedBy infos x (e + 1) j with
+    | false => rfl
+    | true =>
+      exfalso
+      have hjl : j < infos.length := (List.getElem?_eq_some_iff.mp hl).1
+      have hc : capturedBy infos x (e + 1) j = (x.isCfg && decide (x.indent < l.indent) && !commentUnderDeeper infos j &&
+          (decide (specParent infos j < e + 1) || decide (specParent infos j = j))) := by
+        unfold capturedBy; rw [hl]
+      rw [hc] at hcap
+      simp only [Bool.and_eq_true, Bool.or_eq_true, decide_eq_true_eq, Bool.not_eq_true'] at hcap
+      obtain ⟨⟨⟨_, h2⟩, h3⟩, h4⟩ := hcap
+      have hroot : ¬ (l.indent = 0 ∨ commentUnderDeeper infos j = true) := by
+        rintro (h | h)
+        · omega
+        · rw [h3] at h; cases h
+      have hsp : specParent infos j = (nearestShallower infos l.indent j).getD j := by
+        unfold specParent; rw [hl]; simp only [hroot, if_false]
+      cases hn : nearestShallower infos l.indent j with
+      | none =>
+        exact (nearestShallower_eq_none infos l.indent j).mp hn i li (by omega) hi ⟨hcfg, by omega⟩
+      | some p =>
+        rw [hsp, hn] at h4
+        simp only [Option.getD_some] at h4
+        obtain ⟨hp1, _, hp3⟩ := (nearestShallower_eq_some infos l.indent j p).mp hn
+        have hip : i ≤ p := by
+          apply Classical.byContradiction; intro hlt'
+          exact hp3 i li (by omega) (by omega) hi ⟨hcfg, by omega⟩
+        apply H3 j hj hjl
+        rw [hsp, hn]
+        simp only [Option.getD_some]
+        omega
+
+/-- the parent of a non-comment line placed directly behind a block `[i, e]` headed by a
+shallower configuration line lies inside the block -/
+theorem specParent_insert_new_inside (infos : List Info) (x : Info) (i e : Nat) (li : Info)
+    (hi : infos[i]? = some li) (hcfg : li.isCfg = true) (hlt : li.indent < x.indent) (hie : i ≤ e)
+    (he : e < infos.length) (hxc : x.isCmt = false) :
+    i ≤ specParent (infos.take (e + 1) ++ x :: infos.drop (e + 1)) (e + 1) ∧
+    specParent (infos.take (e + 1) ++ x :: infos.drop (e + 1)) (e + 1) ≤ e := by
+  obtain ⟨_, hxat, _, hpre, _⟩ := Ccp.Edit.inserted_frame infos (e + 1) x (by omega)
+  have hcud : commentUnderDeeper (infos.take (e + 1) ++ x :: infos.drop (e + 1)) (e + 1) = false := by
+    unfold commentUnderDeeper; simp [hxat, hxc]
+  have h0 : ¬ x.indent = 0 := by omega
+  have hsp : specParent (infos.take (e + 1) ++ x :: infos.drop (e + 1)) (e + 1)
+      = (nearestShallower infos x.indent (e + 1)).getD (e + 1) := by
+    unfold specParent
+    rw [hxat]
+    simp only [hcud, h0, false_or, Bool.false_eq_true, if_false]
+    rw [nearestShallower_congr _ infos x.indent (e + 1) (fun m hm => hpre m hm)]
+  rw [hsp]
+  cases hn : nearestShallower infos x.indent (e + 1) with
+  | none =>
+    exact absurd ⟨hcfg, hlt⟩ ((nearestShallower_eq_none infos x.indent (e + 1)).mp hn i li (by omega) hi)
+  | some p =>
+    obtain ⟨hp1, _, hp3⟩ := (nearestShallower_eq_some infos x.indent (e + 1) p).mp hn
+    simp only [Option.getD_some]
+    refine ⟨?_, by omega⟩
+    apply Classical.byContradiction; intro hlt'
+    exact hp3 i li (by omega) (by omega) hi ⟨hcfg, hlt⟩
+
+/-- the span of a family is closed: no line behind the last descendant of `i` has its
+parent inside `[i, familyEndpoint i]` -/
+theorem specTree_family_closed {t : T} {infos : List Info} (h : SpecTree t infos) (i : Nat) (li : Info)
+    (hli : infos[i]? = some li) (hlicfg : li.isCfg = true) :
+    ∀ j, familyEndpoint t i < j → j < infos.length →
+      ¬ (i ≤ specParent infos j ∧ specParent infos j ≤ familyEndpoint t i) := by
+  have hf := h.1
+  have hmax := familyEndpoint_max hf i
+  have hlen := h.2.1
+  intro j hej hjl ⟨hp1, hp2⟩
+  have hjs : j < t.size := by omega
+  have hpar := h.2.2.1 j hjs
+  rw [← hpar] at hp1 hp2
+  have hne : parentOf t j ≠ j := by omega
+  obtain ⟨lp, lj, h1, h2, h3, h4, h5, _⟩ := specTree_parent h hjs hne
+  have hij : i ∈ ancestors t j := by
+    rw [ancestors_of_lt h3]
+    by_cases hpi : parentOf t j = i
+    · simp [hpi]
+    · have hie : i ∈ ancestors t (familyEndpoint t i) := by
+        rcases List.mem_cons.mp hmax.1 with heq | hm
+        · omega
+        · exact (mem_allChildren hf).mp hm
+      exact List.mem_cons_of_mem _ (specTree_between h hli hlicfg hie _ lp (by omega) hp2 h1 h4)
+  have := hmax.2 j (List.mem_cons_of_mem _ ((mem_allChildren hf).mpr hij))
+  omega
+
 end Ccp.Tree
 
 /-! ## lift to `parse`, with or without `ignore_blank_lines` -/
@@ -483,7 +579,9 @@ theorem parse_insert_frame (cfg : Cfg) (ls : List Str) (c : Nat) (txt : Str) (hc
     let t := parse cfg ls
     let t' := parse cfg (ls.take c ++ txt :: ls.drop c)
     t'.texts = ls.take c ++ txt :: ls.drop c ∧
-    parentOf t' c = specParent ((ls.take c ++ [txt]).map (info cfg)) c ∧
+    (∀ q, q < ls.length + 1 → parentOf t' q
+      = specParent ((ls.map (info cfg)).take c ++ info cfg txt :: (ls.map (info cfg)).drop c) q) ∧
+    (∀ j, j < ls.length → parentOf t j = specParent (ls.map (info cfg)) j) ∧
     (∀ j, j < c → parentOf t' j = parentOf t j) ∧
     (∀ j, c ≤ j → j < ls.length → ¬ (j = c ∧ isComment cfg (ls.getD j []) = true) →
       parentOf t' (j + 1)
@@ -502,13 +600,34 @@ theorem parse_insert_frame (cfg : Cfg) (ls : List Str) (c : Nat) (txt : Str) (hc
     rw [hnew]; exact parse_parentOf' cfg _ hp' hnb2 k (by omega)
   have hlen : (ls.map (info cfg)).length = ls.length := by simp
   obtain ⟨f1, f2⟩ := specParent_insert (ls.map (info cfg)) (info cfg txt) c (by omega)
-  refine ⟨parse_texts' cfg _ hp' hnb2, ?_, ?_, ?_⟩
-  · rw [hpo c (by omega), specParent_insert_new _ _ c (by omega)]
-    simp [List.map_take]
+  refine ⟨parse_texts' cfg _ hp' hnb2, hpo, fun j hj => parse_parentOf' cfg ls hp hnb1 j hj, ?_, ?_⟩
   · intro j hj
     rw [hpo j (by omega), f1 j hj, parse_parentOf' cfg ls hp hnb1 j (by omega)]
   · intro j hcj hjl hcm
     rw [hpo (j + 1) (by omega), f2 j _ hcj (info_getD cfg ls j hjl) hcm, parse_parentOf' cfg ls hp hnb1 j hjl]
+
+/-- `parse_delete` with or without `ignore_blank_lines` (no blank line around) -/
+theorem parse_delete' (cfg : Cfg) (ls : List Str) (i : Nat)
+    (hp : Plain cfg ls) (hnb : cfg.ignoreBlank = true → ∀ x ∈ ls, nonBlank x = true) :
+    let t := parse cfg ls
+    let dead := Ccp.Edit.descendantsAndSelf t i
+    let keep : Nat → Bool := fun j => !dead.contains j
+    let t' := parse cfg (Ccp.Edit.eraseAll ls dead)
+    t'.texts = Ccp.Edit.eraseAll ls dead ∧
+    ∀ j, j < ls.length → keep j = true →
+      t'.texts[rank keep j]? = ls[j]? ∧
+      (keep (parentOf t j) = true) ∧
+      (¬ (isComment cfg (ls.getD j []) = true ∧ ∃ j', j = j' + 1 ∧ keep j' = false) →
+        parentOf t' (rank keep j) = rank keep (parentOf t j)) := by
+  have e1 := parse_noIg cfg ls hp hnb
+  have e2 : ∀ dead, parse cfg (Ccp.Edit.eraseAll ls dead) = parse (noIg cfg) (Ccp.Edit.eraseAll ls dead) :=
+    fun dead => parse_noIg cfg _ (plain_sublist cfg (Ccp.Edit.eraseAll_sublist ls dead) hp)
+      (fun hi x hx => hnb hi x ((Ccp.Edit.eraseAll_sublist ls dead).subset hx))
+  have := parse_delete (noIg cfg) ls i hp rfl
+  simp only at this
+  rw [← e1] at this
+  rw [← e2] at this
+  exact this
 
 end Ccp.Tree
 
@@ -551,8 +670,10 @@ theorem auto_insert_frame (s : S) (c : Nat) (txt : Str) (st : Bool)
     (hb : isBannerStart txt = false) (hm : s.cfg.ios = true → isMacroStart txt = false)
     (hnb : s.cfg.ignoreBlank = true → isBlank txt = false) :
     let s' := autoCommit { s with items := s.items.take c ++ fresh txt :: s.items.drop c, stale := st, dirty := true }
-    s'.texts = s.texts.take c ++ txt :: s.texts.drop c ∧
-    parentOf s'.tree c = specParent ((s.texts.take c ++ [txt]).map (info s.cfg)) c ∧
+    s'.texts = s.texts.take c ++ txt :: s.texts.drop c ∧ s'.tree.texts = s'.texts ∧
+    (∀ q, q < s.texts.length + 1 → parentOf s'.tree q
+      = specParent ((s.texts.map (info s.cfg)).take c ++ info s.cfg txt :: (s.texts.map (info s.cfg)).drop c) q) ∧
+    (∀ j, j < s.texts.length → parentOf s.tree j = specParent (s.texts.map (info s.cfg)) j) ∧
     (∀ j, j < c → parentOf s'.tree j = parentOf s.tree j) ∧
     (∀ j, c ≤ j → j < s.texts.length → ¬ (j = c ∧ isComment s.cfg (s.texts.getD j []) = true) →
       parentOf s'.tree (j + 1)
@@ -570,15 +691,54 @@ theorem auto_insert_frame (s : S) (c : Nat) (txt : Str) (st : Bool)
     (by rw [hit]; exact plain_insert s.cfg s.texts c txt hp hb hm)
     (by rw [hit]; exact fun hi => nonBlank_insert s.texts c txt (hnb' hi).1 (hnb' hi).2)
   rw [hit] at h1 h2
-  refine ⟨h1, ?_, ?_, ?_⟩
-  · show parentOf s'.tree c = _
-    rw [h2]; exact hmain.2.1
+  refine ⟨h1, ?_, ?_, hmain.2.2.1, ?_, ?_⟩
+  · show s'.tree.texts = s'.texts
+    rw [h2, h1]; exact hmain.1
+  · intro q hq
+    show parentOf s'.tree q = _
+    rw [h2]; exact hmain.2.1 q hq
   · intro j hj
     show parentOf s'.tree j = _
-    rw [h2]; exact hmain.2.2.1 j hj
+    rw [h2]; exact hmain.2.2.2.1 j hj
   · intro j h3 h4 h5
     show parentOf s'.tree (j + 1) = _
-    rw [h2]; exact hmain.2.2.2 j h3 h4 h5
+    rw [h2]; exact hmain.2.2.2.2 j h3 h4 h5
+
+/-- **the parent frame of a one-line insertion**: `s'` is `s` with the line `txt` added at
+position `c`; the lines above `c` keep their parents; an old line `j` at or below `c` (new
+position `j + 1`) — other than a comment directly behind the new line — gets the new line as
+parent when it is captured (`capturedBy`, read by `capturedBy_iff`), and otherwise keeps its
+parent, index-shifted by `shiftAt c` -/
+def InsertFrame (s s' : S) (c : Nat) (txt : Str) : Prop :=
+  s'.texts = s.texts.take c ++ txt :: s.texts.drop c ∧
+  (∀ j, j < c → parentOf s'.tree j = parentOf s.tree j) ∧
+  (∀ j, c ≤ j → j < s.texts.length → ¬ (j = c ∧ isComment s.cfg (s.texts.getD j []) = true) →
+    parentOf s'.tree (j + 1)
+      = if capturedBy (s.texts.map (info s.cfg)) (info s.cfg txt) c j = true then c
+        else shiftAt c (parentOf s.tree j))
+
+/-- the hypotheses under which the parent links are those of the indentation rule: a state
+without uncommitted change satisfying C07's invariant, auto-commit on, no banner / macro
+start in the config -/
+structure PlainCommitted (s : S) : Prop where
+  clean : s.dirty = false
+  fresh : FreshInv s
+  auto : s.auto = true
+  plain : Plain s.cfg s.texts
+
+/-- a payload that keeps the config plain and survives the commit: no banner start, no macro
+start under syntax ios, not blank under `ignore_blank_lines` -/
+def PlainPayload (s : S) (txt : Str) : Prop :=
+  isBannerStart txt = false ∧ (s.cfg.ios = true → isMacroStart txt = false) ∧
+  (s.cfg.ignoreBlank = true → isBlank txt = false)
+
+theorem insertFrame_of_step (s : S) (c : Nat) (txt : Str) (st : Bool) (s' : S) (h : PlainCommitted s)
+    (hx : PlainPayload s txt) (hc : c ≤ s.texts.length)
+    (hs : s' = autoCommit { s with items := s.items.take c ++ fresh txt :: s.items.drop c, stale := st, dirty := true }) :
+    InsertFrame s s' c txt := by
+  obtain ⟨f1, _, _, _, f5, f6⟩ := auto_insert_frame s c txt st h.clean h.fresh h.auto h.plain hc hx.1 hx.2.1 hx.2.2
+  rw [hs]
+  exact ⟨f1, f5, f6⟩
 
 /-! ### `last_parent_linenums[0]` of a childless target is the target -/
 
@@ -658,5 +818,149 @@ theorem lastParentLinenum0_childless {t : T} (hf : Forest t) (w i lp : Nat) (hi 
         cases hin : inLineage t i (i + 1 + d) with
         | false => rfl
         | true => have := inLineage_childless hf hk hin; omega
+
+end Ccp.Edit
+
+/-! ### a line placed next to a configuration line of the same indent -/
+
+namespace Ccp.Edit
+open Ccp.Py Ccp.Tree
+
+theorem isCmt_of_cfg (cfg : Cfg) (t : Str) (h : isConfigLine cfg t = true) : isComment cfg t = false := by
+  simp only [isConfigLine, Bool.and_eq_true, Bool.not_eq_true'] at h
+  exact h.2
+
+/-- **a line placed directly above a configuration line that is not indented deeper than it**
+changes no parent at all; when both are at the same indent and the new line is not a comment,
+it gets the parent of the line it was placed above (it is a root when that one is) -/
+theorem insert_above_cfg (s : S) (c : Nat) (txt : Str) (st : Bool) (s' : S) (h : PlainCommitted s)
+    (hx : PlainPayload s txt) (hc : c < s.texts.length)
+    (hs : s' = autoCommit { s with items := s.items.take c ++ fresh txt :: s.items.drop c, stale := st, dirty := true })
+    (hcfg : isConfigLine s.cfg (s.texts.getD c []) = true) (hle : indent (s.texts.getD c []) ≤ indent txt) :
+    (∀ j, j < c → parentOf s'.tree j = parentOf s.tree j) ∧
+    (∀ j, c ≤ j → j < s.texts.length → parentOf s'.tree (j + 1) = shiftAt c (parentOf s.tree j)) ∧
+    (indent txt = indent (s.texts.getD c []) → isComment s.cfg txt = false →
+      parentOf s'.tree c = parentOf s.tree c) := by
+  obtain ⟨_, _, f3, f4, f5, f6⟩ := auto_insert_frame s c txt st h.clean h.fresh h.auto h.plain (by omega) hx.1 hx.2.1 hx.2.2
+  rw [← hs] at f3 f5 f6
+  have hlc := info_getD s.cfg s.texts c hc
+  refine ⟨f5, ?_, ?_⟩
+  · intro j hcj hjl
+    rw [f6 j hcj hjl (by rintro ⟨rfl, hcm⟩; rw [isCmt_of_cfg _ _ hcfg] at hcm; cases hcm),
+      capturedBy_above _ (info s.cfg txt) c j _ hlc hcfg hle hcj]
+    simp
+  · intro heq hxc
+    rw [f3 c (by omega), f4 c hc]
+    exact specParent_insert_new_sibling_above _ (info s.cfg txt) c _ hlc (isCmt_of_cfg _ _ hcfg) hxc heq
+
+/-- **a configuration line placed directly below a configuration line `p` of the same
+indent** takes over the children of `p` — they are exactly the lines that change parent —
+and becomes a sibling of `p` (a root when `p` is one) -/
+theorem insert_below_cfg_same (s : S) (p : Nat) (txt : Str) (st : Bool) (s' : S) (h : PlainCommitted s)
+    (hx : PlainPayload s txt) (hp : p < s.texts.length)
+    (hs : s' = autoCommit { s with items := s.items.take (p + 1) ++ fresh txt :: s.items.drop (p + 1),
+                                   stale := st, dirty := true })
+    (hcfg : isConfigLine s.cfg (s.texts.getD p []) = true) (heq : indent txt = indent (s.texts.getD p []))
+    (hxc : isConfigLine s.cfg txt = true) :
+    (∀ j, j ≤ p → parentOf s'.tree j = parentOf s.tree j) ∧
+    (∀ j, p < j → j < s.texts.length → ¬ (j = p + 1 ∧ isComment s.cfg (s.texts.getD j []) = true) →
+      parentOf s'.tree (j + 1) = if parentOf s.tree j = p then p + 1 else shiftAt (p + 1) (parentOf s.tree j)) ∧
+    parentOf s'.tree (p + 1) = if parentOf s.tree p = p then p + 1 else parentOf s.tree p := by
+  obtain ⟨_, _, f3, f4, f5, f6⟩ := auto_insert_frame s (p + 1) txt st h.clean h.fresh h.auto h.plain (by omega) hx.1 hx.2.1 hx.2.2
+  rw [← hs] at f3 f5 f6
+  have hlp := info_getD s.cfg s.texts p hp
+  refine ⟨fun j hj => f5 j (by omega), ?_, ?_⟩
+  · intro j hpj hjl hcm
+    rw [f6 j (by omega) hjl hcm]
+    have hlj := info_getD s.cfg s.texts j hjl
+    have hiff := capturedBy_below _ (info s.cfg txt) p j _ _ hlp hcfg (Nat.le_of_eq heq.symm) (by omega) hlj
+    by_cases hpar : parentOf s.tree j = p
+    · have hsp : specParent (s.texts.map (info s.cfg)) j = p := by rw [← f4 j hjl]; exact hpar
+      obtain ⟨_, _, g3⟩ := specParent_ne_self hlj hsp (by omega)
+      obtain ⟨_, ⟨lp', e1, _, e3⟩, _⟩ := (nearestShallower_eq_some _ _ _ _).mp g3
+      rw [hlp] at e1; cases e1
+      have : capturedBy (s.texts.map (info s.cfg)) (info s.cfg txt) (p + 1) j = true :=
+        hiff.mpr ⟨hxc, by show indent txt < _; rw [heq]; exact e3, hsp⟩
+      rw [this, if_pos rfl, if_pos hpar]
+    · have : capturedBy (s.texts.map (info s.cfg)) (info s.cfg txt) (p + 1) j = false := by
+        cases hcap : capturedBy (s.texts.map (info s.cfg)) (info s.cfg txt) (p + 1) j with
+        | false => rfl
+        | true => exact absurd (by rw [f4 j hjl]; exact (hiff.mp hcap).2.2) hpar
+      rw [this, if_neg hpar]; simp
+  · rw [f3 (p + 1) (by omega), f4 p hp]
+    exact specParent_insert_new_sibling_below _ (info s.cfg txt) p _ hlp (isCmt_of_cfg _ _ hcfg)
+      (isCmt_of_cfg _ _ hxc) heq
+
+end Ccp.Edit
+
+/-! ### replace_text / re_sub -/
+
+namespace Ccp.Edit
+open Ccp.Py Ccp.Tree
+
+theorem plain_set (cfg : Cfg) (ls : List Str) (p : Nat) (txt : Str) (hp : Plain cfg ls)
+    (hb : isBannerStart txt = false) (hm : cfg.ios = true → isMacroStart txt = false) :
+    Plain cfg (ls.set p txt) := by
+  constructor
+  · intro x hx
+    rcases List.mem_or_eq_of_mem_set hx with h | rfl
+    · exact hp.1 x h
+    · exact hb
+  · intro hios x hx
+    rcases List.mem_or_eq_of_mem_set hx with h | rfl
+    · exact hp.2 hios x h
+    · exact hm hios
+
+theorem nonBlank_set (ls : List Str) (p : Nat) (txt : Str) (h : ∀ x ∈ ls, nonBlank x = true)
+    (ht : nonBlank txt = true) : ∀ x ∈ ls.set p txt, nonBlank x = true := by
+  intro x hx
+  rcases List.mem_or_eq_of_mem_set hx with h' | rfl
+  · exact h x h'
+  · exact ht
+
+/-- **the text of line `p` replaced, then the auto-commit**: the lines above `p` keep their
+parents whatever the new text is; when the new text has the indentation and the kind
+(configuration line / comment / blank) of the old one, no line changes parent at all -/
+theorem replace_parents (s : S) (p : Nat) (new : Str) (s' : S) (h : PlainCommitted s) (hx : PlainPayload s new)
+    (hp : p < s.texts.length)
+    (hs : s' = autoCommit { s with items := setText s.items p new, dirty := true }) :
+    s'.texts = s.texts.set p new ∧
+    (∀ j, j < p → parentOf s'.tree j = parentOf s.tree j) ∧
+    (info s.cfg new = info s.cfg (s.texts.getD p []) → s'.tree.parents = s.tree.parents) := by
+  obtain ⟨htree, _, _⟩ := h.fresh h.clean
+  have hnb : s.cfg.ignoreBlank = true → ∀ x ∈ s.texts, nonBlank x = true := fresh_nonblank s h.clean h.fresh h.plain
+  have hit : (setText s.items p new).map Item.text = s.texts.set p new := setText_texts s.items p new
+  have hp' : Plain s.cfg (s.texts.set p new) := plain_set s.cfg s.texts p new h.plain hx.1 hx.2.1
+  have hnb' : s.cfg.ignoreBlank = true → ∀ x ∈ s.texts.set p new, nonBlank x = true :=
+    fun hi => nonBlank_set s.texts p new (hnb hi) (by rw [nonBlank_eq, hx.2.2 hi]; rfl)
+  obtain ⟨h1, h2⟩ := auto_commit_plain s h.auto (setText s.items p new) s.stale (by rw [hit]; exact hp')
+    (by rw [hit]; exact hnb')
+  rw [hit] at h1 h2
+  have hs' : s' = autoCommit { s with items := setText s.items p new, stale := s.stale, dirty := true } := hs
+  rw [← hs'] at h1 h2
+  have hlen : (s.texts.set p new).length = s.texts.length := by simp
+  have hmap : (s.texts.set p new).map (info s.cfg) = (s.texts.map (info s.cfg)).set p (info s.cfg new) := by
+    simp [List.map_set]
+  refine ⟨h1, ?_, ?_⟩
+  · intro j hj
+    rw [h2, htree, parse_parentOf' s.cfg _ hp' hnb' j (by omega), parse_parentOf' s.cfg _ h.plain hnb j (by omega), hmap]
+    apply specParent_congr
+    intro m hm
+    rw [List.getElem?_set_ne (by omega)]
+  · intro hinfo
+    have hsame : (s.texts.set p new).map (info s.cfg) = s.texts.map (info s.cfg) := by
+      rw [hmap, hinfo]
+      apply List.ext_getElem?
+      intro m
+      by_cases hm : m = p
+      · subst hm
+        rw [List.getElem?_set_self (by simpa using hp), info_getD s.cfg s.texts m hp]
+      · rw [List.getElem?_set_ne (by omega)]
+    rw [h2, htree, parse_noIg s.cfg _ hp' hnb', parse_noIg s.cfg _ h.plain hnb,
+      parse_plain (noIg s.cfg) _ hp' rfl, parse_plain (noIg s.cfg) _ h.plain rfl]
+    show linkByIndent (noIg s.cfg) (s.texts.set p new) = linkByIndent (noIg s.cfg) s.texts
+    unfold linkByIndent
+    show linkLoop St.init 0 ((s.texts.set p new).map (info s.cfg)) = linkLoop St.init 0 (s.texts.map (info s.cfg))
+    rw [hsame]
 
 end Ccp.Edit
